@@ -85,7 +85,7 @@ def r2(cx):
     w = info["region_start"]
     # a replace hides everything older for readers; compaction drops those older versions (same as the reader) -- via has_replace
     cp.check_obligation(cx, rows, "versions older than a REPLACE (and not needed by a snapshot) are dropped, like the reader hides them",
-                        lambda t: t["has_replace"] and not t["replace"] and not t["is_latest"] and not t["hard_delete"] and t["cur_vis"] == "NoActive" and not t["latest_del_bottom"], False,
+                        lambda t: t["has_replace"] and t["older_than_replace"] and not t["replace"] and not t["is_latest"] and not t["hard_delete"] and t["cur_vis"] == "NoActive" and not t["latest_del_bottom"], False,
                         "replace-barrier-kept", "compaction keeps versions older than a REPLACE", w)
     cp.check_obligation(cx, rows, "a REPLACE that is the latest version is kept", lambda t: t["replace"] and t["is_latest"], True, "latest-replace-dropped", "compaction drops the latest REPLACE", w)
     # hard delete barrier: the reader hides everything older than a hard delete.  Compaction drops an older hard delete
@@ -200,6 +200,15 @@ def r5(cx):
     base = lambda t: t["versioning"] and (not t["is_latest"]) and (not t["hard_delete"]) and (not t["replace"]) and (not t["has_replace"]) and (not t["latest_del_bottom"])
     cp.check_obligation(cx, rows, "unlimited retention, no reader open: every older version is kept", lambda t: base(t) and not t["retention_pos"] and t["cur_vis"] == "NoActive", True,
                         "retention-unlimited-dropped", "with unlimited retention an older version is dropped although no snapshot is open", w)
+    # a REPLACE erases what came BEFORE it: a version written after the newest replace is an ordinary retained version
+    after_replace = lambda t: t["versioning"] and (not t["is_latest"]) and (not t["hard_delete"]) and (not t["replace"]) and t["has_replace"] \
+        and (not t["older_than_replace"]) and (not t["latest_del_bottom"])
+    cp.check_obligation(cx, rows, "unlimited retention, no reader open: a version NEWER than the key's replace is kept", lambda t: after_replace(t) and not t["retention_pos"] and t["cur_vis"] == "NoActive", True,
+                        "retention-dropped-after-replace", "a version written AFTER the key's newest replace is dropped as if the replace had erased it (set@5, replace@10, set@20, set@30: "
+                        "compaction keeps set@30 and replace@10 and loses set@20)", w)
+    cp.check_obligation(cx, rows, "a version OLDER than the key's replace is dropped", lambda t: t["versioning"] and (not t["is_latest"]) and (not t["hard_delete"]) and (not t["replace"])
+                        and t["has_replace"] and t["older_than_replace"] and (not t["latest_del_bottom"]) and t["cur_vis"] == "NoActive", False,
+                        "replace-keeps-older", "a version older than the key's replace survives compaction", w)
     cp.check_obligation(cx, rows, "finite retention: a version younger than the retention period is kept (no reader open)",
                         lambda t: base(t) and t["retention_pos"] and not t["expired"] and t["cur_vis"] == "NoActive", True,
                         "retention-window-dropped", "a version inside the retention window is dropped", w)
